@@ -64,7 +64,9 @@ func (sel *Selection) findSlice(segs []*Path) (*Selection, error) {
 			}
 			copy := *p
 			copy.parent = p
-			copy.Path = segs[i]
+			// the parsed steps hang off a path of their own that starts here; the path of the
+			// selection is the one that leads to this place
+			copy.Path = &Path{Parent: p.Path, Meta: segs[i].Meta}
 			return &copy, nil
 		} else if meta.IsList(segs[i].Meta) || meta.IsContainer(segs[i].Meta) {
 			r := &ChildRequest{
